@@ -31,7 +31,7 @@ def knownDelegations : List (String × String × List String) := [
   ("DiagLinearOperator", "_cholesky_solve", []),
   ("DiagLinearOperator", "solve_triangular", ["solve:C"]),
   ("IdentityLinearOperator", "solve", ["_maybe_reshape_rhs:U"]),
-  ("IdentityLinearOperator", "inv_quad_logdet", ["_matmul_broadcast_shape:C"]),
+  ("IdentityLinearOperator", "inv_quad_logdet", ["_matmul_broadcast_shape:C", "expand:C"]),
   ("IdentityLinearOperator", "sqrt_inv_matmul", ["_maybe_reshape_rhs:C"]),
   ("IdentityLinearOperator", "_cholesky_solve", ["_maybe_reshape_rhs:U"]),
   ("IdentityLinearOperator", "_maybe_reshape_rhs", ["_matmul_broadcast_shape:U", "broadcast_shapes:C", "expand:C"]),
